@@ -122,7 +122,21 @@ func recvField(info *types.Info, e ast.Expr, recv types.Object) (string, bool) {
 	return "", false
 }
 
+// siteProg is one copy site or unframed site as a program of the slice language of
+// coq/model/Heap.v: nparams caller-owned slices (variables 0..nparams-1), the
+// instructions, and the variable holding what the function keeps, returns or extends.
+type siteProg struct {
+	pkg, fn string
+	line    int
+	nparams int
+	prog    string
+	res     int
+}
+
+var siteProgs []siteProg
+
 func scanAliasSites(root string) (sites []aliasSite, framed int, err error) {
+	siteProgs = nil
 	for _, dir := range goPackages(root) {
 		p, e := loadPkg(dir)
 		if e != nil || p == nil {
@@ -155,7 +169,29 @@ func scanAliasSites(root string) (sites []aliasSite, framed int, err error) {
 				exported := fd.Name.IsExported() && !internalPkg
 				aliases := map[types.Object]types.Object{}
 				add := func(kind string, n ast.Node, e ast.Expr) {
-					sites = append(sites, aliasSite{rel, fname, kind, types.ExprString(e), p.fset.Position(n.Pos()).Line})
+					line := p.fset.Position(n.Pos()).Line
+					sites = append(sites, aliasSite{rel, fname, kind, types.ExprString(e), line})
+					switch kind {
+					case "append-on-parameter":
+						// r := append(param, x): r (variable 1) is what the function goes on with
+						siteProgs = append(siteProgs, siteProg{rel, fname, line, 1, "[IAppend 0 [0%N] 0]", 1})
+					default:
+						// the parameter / the field itself (variable 0) is kept or handed out
+						siteProgs = append(siteProgs, siteProg{rel, fname, line, 1, "[]", 0})
+					}
+				}
+				addFramed := func(n *ast.CallExpr, clone bool) {
+					line := p.fset.Position(n.Pos()).Line
+					k := len(n.Args)
+					if clone || k == 0 {
+						siteProgs = append(siteProgs, siteProg{rel, fname, line, 1, "[IClone 0 0]", 1})
+						return
+					}
+					var vs []string
+					for i := 0; i < k; i++ {
+						vs = append(vs, fmt.Sprint(i))
+					}
+					siteProgs = append(siteProgs, siteProg{rel, fname, line, k, "[IConcat [" + strings.Join(vs, "; ") + "] 0]", k})
 				}
 				ast.Inspect(fd.Body, func(n ast.Node) bool {
 					switch n := n.(type) {
@@ -207,10 +243,12 @@ func scanAliasSites(root string) (sites []aliasSite, framed int, err error) {
 									for _, a := range n.Args {
 										if rootParam(p.info, a, params, aliases) != nil {
 											framed++
+											addFramed(n, sel.Sel.Name == "Clone")
 											break
 										}
 										if _, ok := recvField(p.info, a, recv); ok {
 											framed++
+											addFramed(n, sel.Sel.Name == "Clone")
 											break
 										}
 									}
@@ -285,7 +323,7 @@ func scanAliasSites(root string) (sites []aliasSite, framed int, err error) {
 func aliasSitesV(sites []aliasSite, framed int) string {
 	var b strings.Builder
 	b.WriteString("(* C19: places where a caller's byte slice is appended to, stored, or an\n   internal byte slice is handed out, WITHOUT a copy (syntactic scan of the\n   library's non-test packages; see harness/cmd/translate/alias.go). *)\n")
-	b.WriteString("From Coq Require Import List String.\nImport ListNotations.\nOpen Scope string_scope.\n")
+	b.WriteString("From Coq Require Import List String NArith.\nFrom Tink Require Import Heap.\nImport ListNotations.\nOpen Scope string_scope.\n")
 	b.WriteString("Inductive alias_kind := AppendOnParameter | StoreParameter | ReturnField.\n")
 	b.WriteString("Record alias_site := mkSite { s_pkg : string; s_fn : string; s_kind : alias_kind; s_expr : string }.\n")
 	b.WriteString("Definition c19_unframed_sites : list alias_site := [")
@@ -298,5 +336,24 @@ func aliasSitesV(sites []aliasSite, framed int) string {
 	}
 	b.WriteString("].\n")
 	fmt.Fprintf(&b, "Definition c19_framed_copy_sites : nat := %d. (* slices.Concat / bytes.Clone applied to a parameter or receiver field *)\n", framed)
+	// every site as a program of model/Heap.v: (package, function, number of caller slices, program, variable kept/returned)
+	sort.Slice(siteProgs, func(i, j int) bool {
+		a, c := siteProgs[i], siteProgs[j]
+		if a.pkg != c.pkg {
+			return a.pkg < c.pkg
+		}
+		if a.fn != c.fn {
+			return a.fn < c.fn
+		}
+		return a.line < c.line
+	})
+	b.WriteString("Definition c19_site_programs : list (string * string * nat * list instr * nat) := [")
+	for i, sp := range siteProgs {
+		if i > 0 {
+			b.WriteString(";")
+		}
+		fmt.Fprintf(&b, "\n  (\"%s\", \"%s\", %d%%nat, %s, %d%%nat) (* line %d *)", sp.pkg, sp.fn, sp.nparams, sp.prog, sp.res, sp.line)
+	}
+	b.WriteString("].\n")
 	return b.String()
 }
